@@ -382,10 +382,10 @@ func c20Replicated(c *fw.Ctx, round int) {
 func c20MergeRace(c *fw.Ctx, round int) {
 	bad := 0
 	var witness string
-	rounds := c.Pick(40, 150)
+	rounds := c.Pick(120, 500)
 	for r := 0; r < rounds; r++ {
 		a := kit.NewReplica(1)
-		k := 6
+		k := 8
 		payloads := make([][]byte, k)
 		for i := 0; i < k; i++ {
 			ts := int64(100 + i)
@@ -396,28 +396,29 @@ func c20MergeRace(c *fw.Ctx, round int) {
 			}
 			payloads[i] = kit.EncodeEvent(ev)
 		}
-		// odd rounds: one kind per payload, so that merges of the same kind are not staggered by the
-		// locks of the kinds merged before it
-		if r%2 == 1 {
-			for i := 0; i < k; i++ {
-				ev, _ := kit.DecodeEvent(payloads[i])
-				payloads[i] = kit.EncodeEvent(&api.StateBroadcastEvent{RetainedMessages: ev.RetainedMessages})
-				payloads = append(payloads, kit.EncodeEvent(&api.StateBroadcastEvent{Subscriptions: ev.Subscriptions}), kit.EncodeEvent(&api.StateBroadcastEvent{SessionMetadatas: ev.SessionMetadatas}))
-			}
-		}
+		// every update is delivered exactly once, each by its own goroutine, all at the same moment: a
+		// lost update cannot be healed by a later re-delivery. Odd rounds split the three kinds into
+		// separate payloads so that merges of one kind are not staggered by the locks of the others.
 		var wg sync.WaitGroup
 		startCh := make(chan struct{})
-		nG := 10
-		for g := 0; g < nG; g++ {
-			wg.Add(1)
-			go func(g int) {
-				defer wg.Done()
-				order := c.SubRng(fmt.Sprintf("c20/mr/%d/%d", round, r), g).Perm(len(payloads))
-				<-startCh
-				for _, i := range order {
-					a.Deliver(payloads[i])
+		for g := 0; g < k; g++ {
+			mine := [][]byte{payloads[g]}
+			if r%2 == 1 {
+				ev, _ := kit.DecodeEvent(payloads[g])
+				mine = [][]byte{
+					kit.EncodeEvent(&api.StateBroadcastEvent{RetainedMessages: ev.RetainedMessages}),
+					kit.EncodeEvent(&api.StateBroadcastEvent{Subscriptions: ev.Subscriptions}),
+					kit.EncodeEvent(&api.StateBroadcastEvent{SessionMetadatas: ev.SessionMetadatas}),
 				}
-			}(g)
+			}
+			wg.Add(1)
+			go func(mine [][]byte) {
+				defer wg.Done()
+				<-startCh
+				for _, p := range mine {
+					a.Deliver(p)
+				}
+			}(mine)
 		}
 		close(startCh)
 		wg.Wait()
@@ -433,7 +434,7 @@ func c20MergeRace(c *fw.Ctx, round int) {
 	c.Observe("merge_race_rounds", rounds)
 	c.Case(fmt.Sprintf("merge-race|%d", round), true)
 	if bad > 0 {
-		c.Violation("replicated-state-lost-update:concurrent-merges", fmt.Sprintf("merge-race round %d: in %d of %d rounds the newest of 6 concurrently merged updates of one key did not survive; e.g. %s", round, bad, rounds, fw.Short(witness, 500)), map[string]interface{}{"round": round, "bad_rounds": bad, "example": witness})
+		c.Violation("replicated-state-lost-update:concurrent-merges", fmt.Sprintf("merge-race round %d: in %d of %d rounds the newest of 8 concurrently merged updates of one key did not survive; e.g. %s", round, bad, rounds, fw.Short(witness, 500)), map[string]interface{}{"round": round, "bad_rounds": bad, "example": witness})
 	}
 }
 
